@@ -304,32 +304,39 @@ def _json_protocol(ctx):
     P = ctx.P
     mod = P.cls("Domain").module
     wspecial, rspecial, fallback = {}, {}, False
+    from .c01 import _dom_atoms
     for f in mod.functions.values():
         src = U(f.node)
         if "'sampler_cls'" not in src:
             continue
-        for st in walk_shallow(f.node):
-            if isinstance(st, ast.If):
-                t = st.test
-                # writer:  if isinstance(sampler, K): return {"sampler_cls": "N", ...}
-                if isinstance(t, ast.Call) and fn_name(t) == "isinstance" and len(t.args) == 2:
-                    k = P.resolve_expr_static(mod, t.args[1], None)
-                    for x in walk_shallow(ast.Module(body=st.body, type_ignores=[])):
-                        if isinstance(x, ast.Dict):
-                            for kk, vv in zip(x.keys, x.values):
-                                if isinstance(kk, ast.Constant) and kk.value == "sampler_cls" and isinstance(vv, ast.Constant) \
-                                        and isinstance(k, ClassInfo):
+        cfg = cfg_of(f)
+        for n in cfg.nodes:
+            if not (n.kind == "stmt" and isinstance(n.ast, ast.Return) and n.ast.value is not None):
+                continue
+            at = _dom_atoms(cfg, n.id)
+            v = n.ast.value
+            # writer:  on the edge isinstance(sampler, K):  return {"sampler_cls": "N", ...}
+            if isinstance(v, ast.Dict):
+                for kk, vv in zip(v.keys, v.values):
+                    if isinstance(kk, ast.Constant) and kk.value == "sampler_cls" and isinstance(vv, ast.Constant):
+                        for a_ in at:
+                            if a_[0] == "isinstance" and a_[3] is True:
+                                k = P.resolve_expr_static(mod, ast.parse(a_[2], mode="eval").body, None)
+                                if isinstance(k, ClassInfo):
                                     wspecial[k] = vv.value
-                # reader:  if sampler_cls == "N": return K(...)
-                if isinstance(t, ast.Compare) and len(t.ops) == 1 and isinstance(t.ops[0], ast.Eq) and isinstance(t.comparators[0], ast.Constant) \
-                        and isinstance(t.comparators[0].value, str):
-                    for x in st.body:
-                        if isinstance(x, ast.Return) and isinstance(x.value, ast.Call):
-                            k = P.resolve_expr_static(mod, x.value.func, None)
-                            if isinstance(k, ClassInfo):
-                                rspecial[t.comparators[0].value] = k
-        if "getattr(domain_cls, '_' + " in src:
-            fallback = True
+            # reader:  on the edge sampler_cls == "N":  return K(...)
+            if isinstance(v, ast.Call):
+                k = P.resolve_expr_static(mod, v.func, None)
+                if isinstance(k, ClassInfo):
+                    for a_ in at:
+                        if a_[0] == "eq" and a_[3] is True:
+                            for side in (a_[1], a_[2]):
+                                if side[:1] in "'\"":
+                                    rspecial[ast.literal_eval(side)] = k
+        for x in walk_shallow(f.node):
+            if isinstance(x, ast.Call) and fn_name(x) == "getattr" and len(x.args) >= 2 and isinstance(x.args[1], ast.BinOp) \
+                    and isinstance(x.args[1].op, ast.Add) and isinstance(x.args[1].left, ast.Constant) and x.args[1].left.value == "_":
+                fallback = True
     if not fallback and not rspecial:
         raise AnchorError("config_space: the code that resolves 'sampler_cls' back to a sampler class is not recognised")
     return wspecial, rspecial, fallback
